@@ -1,0 +1,100 @@
+//go:build verif
+
+package buffer
+
+import (
+	"bufio"
+	"encoding/json"
+	"fmt"
+	"os"
+	"sync"
+)
+
+// Tracing hooks for the verification harness in /verif (build tag "verif").
+// Every hooked method emits one self-contained event: the full hidden state
+// before the call, the operation and its argument, the full hidden state
+// after it.  The sink is nil unless a test or REDACT_VERIF_TRACE installs it.
+
+const verifOn = true
+
+// VerifState is the hidden state of a Buffer.
+type VerifState struct {
+	Buf   []int `json:"buf"`
+	Valid int   `json:"valid"`
+	Mode  int   `json:"mode"`
+	Open  bool  `json:"open"`
+}
+
+// VerifOp is one operation as data ([op, p, n] of the TLA+ specification).
+type VerifOp struct {
+	Op string `json:"op"`
+	P  []int  `json:"p"`
+	N  int    `json:"n"`
+}
+
+// VerifEvent is one recorded transition.
+type VerifEvent struct {
+	K    string     `json:"k"`
+	Pre  VerifState `json:"pre"`
+	Op   VerifOp    `json:"op"`
+	Post VerifState `json:"post"`
+	Inv  bool       `json:"inv"`
+}
+
+// VerifSink receives the events; nil (the default) disables tracing.
+var VerifSink func(ev VerifEvent)
+
+// VerifMaxLen bounds the buffer length of recorded events.
+var VerifMaxLen = 256
+
+func ints(b []byte) []int {
+	out := make([]int, len(b))
+	for i, c := range b {
+		out[i] = int(c)
+	}
+	return out
+}
+
+func verifSnap(b *Buffer) VerifState {
+	return VerifState{ints(b.buf), b.validUntil, int(b.mode), b.markerOpen}
+}
+
+func verifTrace(b *Buffer, op string, p []byte, n int) func() {
+	sink := VerifSink
+	if sink == nil || b == nil || len(b.buf) > VerifMaxLen || len(p) > VerifMaxLen {
+		return func() {}
+	}
+	pre := verifSnap(b)
+	vop := VerifOp{op, ints(p), n}
+	return func() {
+		if len(b.buf) > 2*VerifMaxLen {
+			return
+		}
+		sink(VerifEvent{"buf", pre, vop, verifSnap(b), false})
+	}
+}
+
+var verifMu sync.Mutex
+
+func init() {
+	path := os.Getenv("REDACT_VERIF_TRACE")
+	if path == "" {
+		return
+	}
+	f, err := os.OpenFile(fmt.Sprintf("%s.%d", path, os.Getpid()), os.O_CREATE|os.O_WRONLY|os.O_APPEND, 0o644)
+	if err != nil {
+		return
+	}
+	w := bufio.NewWriter(f)
+	VerifSink = func(ev VerifEvent) {
+		b, err := json.Marshal(ev)
+		if err != nil {
+			return
+		}
+		verifMu.Lock()
+		w.Write(b)
+		w.WriteByte('\n')
+		w.Flush()
+		verifMu.Unlock()
+	}
+}
